@@ -181,6 +181,12 @@ static std::string handle(const std::string& cmd, const std::string& args) {
     if (4 * wi + 4 <= f.size()) std::memcpy(&f[4 * wi], &v, 4);
     return read_all_modes(f, (int) to_ll(w.at(3)));
   }
+  if (cmd == "mtz_off64") {      // variant value64 mode: 64-bit header offset (word 1 = -1, bytes 12..19 = value)
+    long long v = to_ll(w.at(1));
+    int m1 = -1;
+    if (f.size() >= 20) { std::memcpy(&f[4], &m1, 4); std::memcpy(&f[12], &v, 8); }
+    return read_all_modes(f, (int) to_ll(w.at(2)));
+  }
   if (cmd == "mtz_rand") {       // variant seed nmut mode: random corruption of the header region / batch binary blocks
     Lcg rng((unsigned long long) to_ll(w.at(1)));
     int nmut = (int) to_ll(w.at(2));
